@@ -146,7 +146,7 @@ func (m *Model) judgeESDTTransfer(c *Call, v *Verdict) {
 		return
 	}
 	v.Known = true
-	if m.shardOf(c.Rcv) == vmcommon.MetachainShardId {
+	if m.shardOf(c.Rcv) == refMetachainShard {
 		v.fail(pC09, "ESDTTransfer/metachain-destination", "transfer addressed to the metachain")
 	}
 	if sndLocal {
@@ -158,7 +158,7 @@ func (m *Model) judgeESDTTransfer(c *Call, v *Verdict) {
 	}
 	if dstLocal {
 		m.flagChecks(v, c, c.Rcv, token, suffix, "ESDTTransfer/dest")
-		m.payCheck(v, c, c.Rcv, vmcommon.MinLenArgumentsESDTTransfer, "ESDTTransfer/dest")
+		m.payCheck(v, c, c.Rcv, refMinArgsESDTTransfer, "ESDTTransfer/dest")
 		v.Credits = []string{string(c.Rcv)}
 	}
 	if msg != nil && len(v.MustFail) == 0 {
@@ -182,10 +182,10 @@ func (m *Model) judgeESDTTransfer(c *Call, v *Verdict) {
 		case !sndLocal: // issuance by the system contract
 			m.addSupply(suffix, value)
 		}
-		if sndLocal && !dstLocal && m.shardOf(c.Rcv) != vmcommon.MetachainShardId {
+		if sndLocal && !dstLocal && m.shardOf(c.Rcv) != refMetachainShard {
 			nm := &Msg{Kind: "transfer", Fn: c.Fn, Caller: cp(c.Caller), Rcv: cp(c.Rcv), Sender: cp(c.Caller), CallType: c.CallType, Gas: c.Gas, GasLocked: c.GasLocked,
 				Items: []Item{{Token: cp(token), Suffix: suffix, Qty: new(big.Int).Set(value)}}}
-			if vmcommon.IsSmartContractAddress(c.Caller) {
+			if refIsSC(c.Caller) {
 				// a contract's cross-shard transfer travels as the emitted output transfer
 				ot := firstTransfer(res, c.Rcv)
 				if ot == nil {
@@ -236,7 +236,7 @@ func (m *Model) judgeNFTTransfer(c *Call, v *Verdict) {
 	it := msg.Items[0]
 	v.Suffixes = []string{it.Suffix}
 	m.flagChecks(v, c, c.Rcv, it.Token, it.Suffix, "ESDTNFTTransfer/dest")
-	m.payCheck(v, c, c.Rcv, vmcommon.MinLenArgumentsESDTNFTTransfer, "ESDTNFTTransfer/dest")
+	m.payCheck(v, c, c.Rcv, refMinArgsNFTTransfer, "ESDTNFTTransfer/dest")
 	v.Credits = []string{string(c.Rcv)}
 	hashClash := m.hashClash(c.Shard, c.Rcv, it)
 	if hashClash {
@@ -271,7 +271,7 @@ func (m *Model) judgeNFTSender(c *Call, v *Verdict) {
 	if bytes.Equal(dest, c.Caller) {
 		v.fail(pC09, "ESDTNFTTransfer/to-self", "transfer to the sender itself")
 	}
-	if m.shardOf(dest) == vmcommon.MetachainShardId {
+	if m.shardOf(dest) == refMetachainShard {
 		v.fail(pC09, "ESDTNFTTransfer/metachain-destination", "transfer addressed to the metachain")
 	}
 	if qty.Cmp(e.Value) > 0 {
@@ -287,7 +287,7 @@ func (m *Model) judgeNFTSender(c *Call, v *Verdict) {
 	if dstLocal {
 		v.Side = "both"
 		m.flagChecks(v, c, dest, token, suffix, "ESDTNFTTransfer/dest")
-		m.payCheck(v, c, dest, vmcommon.MinLenArgumentsESDTNFTTransfer, "ESDTNFTTransfer/dest")
+		m.payCheck(v, c, dest, refMinArgsNFTTransfer, "ESDTNFTTransfer/dest")
 		v.Credits = []string{string(dest)}
 		if m.hashClash(c.Shard, dest, item) {
 			v.fail(pC08, "ESDTNFTTransfer/dest/different-hash", "destination holds a different hash under key %x", suffix)
@@ -403,7 +403,7 @@ func (m *Model) judgeMultiSender(c *Call, v *Verdict, args [][]byte, n uint64) {
 	if bytes.Equal(dest, c.Caller) {
 		v.fail(pC09, "MultiESDTNFTTransfer/to-self", "transfer to the sender itself")
 	}
-	if m.shardOf(dest) == vmcommon.MetachainShardId {
+	if m.shardOf(dest) == refMetachainShard {
 		v.fail(pC09, "MultiESDTNFTTransfer/metachain-destination", "transfer addressed to the metachain")
 	}
 	dstLocal := len(dest) == len(c.Caller) && m.local(dest, c.Shard)
